@@ -56,6 +56,9 @@ func (o regOp) String() string {
 		if o.Wrap == 3 {
 			s += ",by-value node of a non-comparable type"
 		}
+		if o.Wrap == 4 {
+			s += ",behind a decorator that is a Closer and a NodeUnwrapper"
+		}
 		if o.Alias != "" {
 			s += fmt.Sprintf(",the instance registered as %q", o.Alias)
 		}
@@ -158,8 +161,9 @@ type regWorld struct {
 	quiet   bool
 	types   []string
 	ids     []string
-	regd    map[string]el.Node     // what was passed to the last successful RegisterNode per id
-	wrapOf  map[*recNode]*wrapNode // the outermost wrapper a node object was registered behind
+	regd    map[string]el.Node       // what was passed to the last successful RegisterNode per id
+	wrapOf  map[*recNode]*wrapNode   // the outermost wrapper a node object was registered behind
+	cwrapOf map[*recNode]*closerWrap // node objects registered behind a decorator that is itself a Closer
 }
 
 // regBrokerOpts: options handed to NewBroker by the current run ("accepted, but none are
@@ -171,7 +175,7 @@ func newRegWorld(sim *simrt.Sim, types, ids []string) *regWorld {
 	if err != nil || b == nil {
 		b, _ = el.NewBroker()
 	}
-	return &regWorld{broker: b, model: newBrokerModel(), h: newFanHarness(sim), types: types, ids: ids, regd: map[string]el.Node{}, wrapOf: map[*recNode]*wrapNode{}}
+	return &regWorld{broker: b, model: newBrokerModel(), h: newFanHarness(sim), types: types, ids: ids, regd: map[string]el.Node{}, wrapOf: map[*recNode]*wrapNode{}, cwrapOf: map[*recNode]*closerWrap{}}
 }
 
 type mismatch struct {
@@ -224,6 +228,11 @@ func (w *regWorld) apply(op regOp) (ms []mismatch, failed bool) {
 		}
 		if op.Wrap == 3 {
 			reg = valueNode{inner: reg, tags: []string{"not", "comparable"}} // a by-value node of a non-comparable type
+		}
+		if op.Wrap == 4 {
+			cw := &closerWrap{inner: obj} // a decorator that is a Closer and a NodeUnwrapper
+			reg = cw
+			w.cwrapOf[obj] = cw
 		}
 		err := w.broker.RegisterNode(el.NodeID(op.ID), reg, opts...)
 		if err == nil {
@@ -453,6 +462,12 @@ func (w *regWorld) apply(op regOp) (ms []mismatch, failed bool) {
 	case "send":
 		ms = append(ms, w.sendProbe(op.Typ)...)
 	}
+	for o, cw := range w.cwrapOf {
+		if cw.Closes != o.Closes {
+			add("close-through-decorator", "", "%s: node %s is registered behind a decorator that is itself a Closer; the decorator's Close ran %d times, the wrapped node's %d times: the REGISTERED node's Close is the one to call (it closes what it wraps)", op, o.Label, cw.Closes, o.Closes)
+			cw.Closes = o.Closes // report once
+		}
+	}
 	return
 }
 
@@ -615,8 +630,11 @@ func runRegistrySeqOps(rc *RunCtx, prop string, fixed []regOp) {
 	idKind := map[string]int{}
 	switch prop {
 	case "C05":
-		ids = []string{"f", "m", "x", "s", "u"}
-		idKind = map[string]int{"f": int(el.NodeTypeFilter), "m": int(el.NodeTypeFormatter), "x": int(el.NodeTypeFormatterFilter), "s": int(el.NodeTypeSink), "u": 0}
+		// (" ", "\t" and "\u00a0" are not empty: ids made of white space only are ids)
+		ids = []string{"f", "m", " ", "s", "u"}
+		idKind = map[string]int{"f": int(el.NodeTypeFilter), "m": int(el.NodeTypeFormatter), " ": int(el.NodeTypeFormatterFilter), "s": int(el.NodeTypeSink), "u": 0}
+		types = []string{"ta", "\t"}
+		pids = []string{"p/0", "\u00a0", "p1 "}
 	default:
 		ids = []string{"n0", "n1", "n2", "n3"}
 		idKind = map[string]int{"n0": int(el.NodeTypeFilter), "n1": int(el.NodeTypeFormatter), "n2": int(el.NodeTypeSink), "n3": int(el.NodeTypeSink)}
@@ -676,6 +694,11 @@ func runRegistrySeqOps(rc *RunCtx, prop string, fixed []regOp) {
 		}
 		out = append(out, "n1")
 		out = append(out, []string{"n2", "n3"}[tp.Choose(2, "sink")])
+		if (prop == "C20" || prop == "C06") && tp.Choose(5, "tee") == 0 {
+			// a "tee": a sink in the middle, then another formatter and sink (only the LAST two nodes are
+			// constrained); every listed node is a node of the pipeline
+			out = append(out, "n1", []string{"n3", "n2"}[tp.Choose(2, "sink2")])
+		}
 		if tp.Choose(12, "malformed") == 0 {
 			out = out[:len(out)-1]
 		}
@@ -729,7 +752,7 @@ func runRegistrySeqOps(rc *RunCtx, prop string, fixed []regOp) {
 				o.CloseErr = true
 			}
 			if (prop == "C06" || prop == "C20") && tp.Choose(4, "wrap") == 0 {
-				o.Wrap = 1 + tp.Choose(3, "wraplevels") // 3: a by-value node of a non-comparable type
+				o.Wrap = 1 + tp.Choose(4, "wraplevels") // 3: a by-value node of a non-comparable type; 4: a decorator that is a Closer too
 			}
 			if prop == "C06" && o.Wrap == 0 && !o.CloseErr && tp.Choose(5, "alias") == 0 {
 				o.Alias = ids[tp.Choose(len(ids), "aliasof")]
@@ -951,7 +974,7 @@ func relevant(prop, rule string) bool {
 		return rule == "accept" || rule == "is-any" || rule == "failed-call-changed-state"
 	case "C06":
 		return rule == "remove-node" || rule == "remove-node-close" || rule == "rpan-result" || rule == "rpan-close" || rule == "rpan-close-error" ||
-			rule == "pinned" || rule == "delivery" || rule == "is-any"
+			rule == "pinned" || rule == "delivery" || rule == "is-any" || rule == "close-through-decorator"
 	case "C07":
 		// (reopen-missed: "re-registering a node ID affects only pipelines registered afterwards" -- the
 		// pipelines registered before keep the node they were linked with, for Reopen as for Send)
